@@ -23,7 +23,8 @@ Restored(snap) == snap
 
 (* ---- the storage while the application runs (model-checked in MC_Persist) ---- *)
 CONSTANTS Blocks, Sync, PersistentAtStart,
-          DisableOnError      \* TRUE = the code; FALSE = deviation "a block whose handler failed is still saved at stop"
+          DisableOnError      \* "always" = the code; deviations: "never" = a block whose handler failed is still
+                              \* saved at stop; "first" = only the block whose error stopped the simulation is excluded
 VARIABLES phase, live, store, ts, pers, startOk, now, failed
 pvars == <<phase, live, store, ts, pers, startOk, now, failed>>
 
@@ -44,10 +45,16 @@ EventOk(b) == /\ phase = "running"
                    /\ store' = IF b \in pers /\ b \in Sync THEN [store EXCEPT ![b] = s] ELSE store
               /\ UNCHANGED <<phase, ts, pers, startOk, now, failed>>
 (* the handler fails: the simulation stops, the block's state is suspect: never saved again *)
-EventFails(b) == /\ phase = "running" /\ phase' = "failing"
-                 /\ pers' = (IF DisableOnError THEN pers \ {b} ELSE pers) /\ failed' = failed \cup {b}
+(* (also while the simulation is already stopping - after a stop request or an error    *)
+(* elsewhere - until the clean-up saves the states)                                      *)
+EventFails(b) == /\ phase \in {"running", "failing"} /\ phase' = "failing"
+                 /\ pers' = (IF DisableOnError = "always" \/ (DisableOnError = "first" /\ phase = "running")
+                             THEN pers \ {b} ELSE pers)
+                 /\ failed' = failed \cup {b}
                  /\ \E s \in [st : {1, 2}, due : {NONE}, sd : {7}] : live' = [live EXCEPT ![b] = s]   \* possibly corrupted
                  /\ UNCHANGED <<store, ts, startOk, now>>
+(* a stop request / an error that is not a handler error of a persistent block *)
+StopReq == /\ phase = "running" /\ phase' = "failing" /\ UNCHANGED <<live, store, ts, pers, startOk, now, failed>>
 Tick == /\ phase = "running" /\ now < 4 /\ now' = now + 1 /\ UNCHANGED <<phase, live, store, ts, pers, startOk, failed>>
 (* regular stop / stop after an error: all (still) persistent blocks + the time stamp *)
 Stop == /\ phase \in {"running", "failing"} /\ phase' = "stopped"
@@ -55,7 +62,7 @@ Stop == /\ phase \in {"running", "failing"} /\ phase' = "stopped"
                            /\ ts' = now
                       ELSE UNCHANGED <<store, ts>>
         /\ UNCHANGED <<live, pers, startOk, now, failed>>
-PNext == StartFails \/ InitDone \/ Tick \/ Stop \/ \E b \in Blocks : EventOk(b) \/ EventFails(b)
+PNext == StartFails \/ InitDone \/ Tick \/ StopReq \/ Stop \/ \E b \in Blocks : EventOk(b) \/ EventFails(b)
 
 (* after initialisation and after every handled event the storage holds the current state *)
 StoreIsCurrent == phase = "running" => \A b \in pers \cap Sync : store[b] = live[b]
